@@ -41,10 +41,12 @@ struct C04 {
   int verdict_classes = 0; uint32_t seen_mask = 0; bool init_while_open = false; uint32_t pre_tv = 0;
   explicit C04(Ctx &cx) : c(cx), s(cx), w(s) {}
 
-  void build() {
+  void build(bool wide = false) {
     s.nodeid = (uint8_t)(1 + c.t.below(127));
     w.mandatory();
     SplitMix iv(c.t.u16());
+    // mode wide-dictionary: objects in the network-variable area, more than 7FFFh indices away from the communication objects
+    if (wide) { w.add_int(0xA100, 0, 4, false, false, true, true, 0xA1000000u); w.add_int(0xA100, 1, 2, true, false, true, true, 0xA101); w.add_int(0xFFFE, 0, 1, false, false, true, false, 0xFE); }
     w.add_int(0x2000, 0, 1, false, false, true, true, (uint32_t)iv.next());
     w.add_int(0x2001, 0, 2, false, false, true, false, (uint32_t)iv.next());   // read-only
     w.add_int(0x2002, 0, 4, false, false, false, true, (uint32_t)iv.next());   // write-only
@@ -357,8 +359,8 @@ struct C04 {
   }
 };
 
-void one_case(Ctx &c) {
-  C04 x(c); x.build();
+void case_impl(Ctx &c, bool wide) {
+  C04 x(c); x.build(wide);
   int nsrv = CO_SSDO_N;
   bool opmode = c.t.coin();
   if (opmode) { x.s.rx(Frame::mk(0, 2, {1, 0})); x.s.clear_tx(); VLOG(c, "NMT start: OPERATIONAL"); }
@@ -371,6 +373,7 @@ void one_case(Ctx &c) {
     Srv &m = x.m[n];
     uint32_t k = c.t.below(25);
     uint16_t idx = MUX[k][0]; uint8_t sub = (uint8_t)MUX[k][1];
+    if (wide) { if (k == 21) idx = 0xA100; else if (k == 22) idx = 0xA100; else if (k == 23) { idx = 0xFFFE; sub = 0; } else if (k == 9 || k == 12) { idx = 0xA100; sub = (uint8_t)(k == 9 ? 0 : 2); } }   // A100h:00, A100h:01, FFFEh:00, absent A100h:02
     if (m.obj && c.t.chance(50)) { idx = m.obj->idx; sub = m.obj->sub; }   // the object of the currently open transfer
     // (the region "user-type object addressed while the other server has a transfer open on the same object" was excluded here while D38 was a known finding; D38 is repaired)
     TObj *o = x.w.lookup(idx, sub);
@@ -452,15 +455,19 @@ void one_case(Ctx &c) {
   for (int i = 0; i < 19; i++) if (x.seen_mask & (1u << i)) { static const char *N[19] = {"v:0602-0000", "v:0609-0011", "v:0601-0002", "v:0601-0001", "v:0607-0012", "v:0607-0013", "v:0504-0002", "v:0609-0030", "v:0604-0043", "v:app-code", "v:exp-no-size-large", "v:exp-download-ok", "v:upload-ok", "v:seg-dl-init-ok", "v:blk-dl-init-ok", "v:blk-ul-init-ok", "v:0503-0000", "v:continuation-without-transfer", "v:0504-0001"}; c.cls(N[i]); }
 }
 
+void one_case(Ctx &c) { case_impl(c, false); }
+void wide_case(Ctx &c) { case_impl(c, true); }
+
 Registrar reg(Prop{
     "C04",
     "Cases: node id 1..127; dictionary with every access-flag combination (RW, RO, WO integers and domains, direct/referenced/node-id relative), an array with a gap, a string, a domain of <= 4 bytes, 1003h:0 (range), 1016h (incompatibility) and a user type rejecting values with an application abort code; "
     "histories of up to 40 (60) request frames per case on one server (two in build n2, interleaved) over the full SDO command alphabet: canonical initiates of all five kinds with announced sizes around the object size, segments with right/wrong toggle, block segments/acknowledges/end frames, client aborts, unknown commands (ccs 7), commands with reserved bits, random bytes; "
     "multiplexers from existing / absent sub-index / absent index / the object of the open transfer; NMT state toggled between PRE-OPERATIONAL and OPERATIONAL. "
     "Oracle: per-request validity predicate from a protocol-state model per server (response count, responder id, multiplexer, listed abort codes, unchanged storage snapshot on refusal, named object's data/size on positive initiate responses). "
-    "Mode pdo-mapping-verdicts: the PDO parameter histories and rule model of C14 (accept/refuse verdict, 0604 0041h / 0604 0042h where the reason is named, refused write changes nothing). "
+    "Mode wide-dictionary: the same with additional objects at A100h and FFFEh (the dictionary spans more than 7FFFh indices). Mode pdo-mapping-verdicts: the PDO parameter histories and rule model of C14 (accept/refuse verdict, 0604 0041h / 0604 0042h where the reason is named, refused write changes nothing). "
     "Non-trivial: the history contains an initiate while another transfer was open, or >= 3 different verdict classes (pdo-mapping-verdicts: >= 1 accepted and >= 1 refused write and an activation after them). Distinct = distinct decoded choice sequence.",
-    {Mode{"random", one_case, false, 700000, 20000000, 0, 0, 260, 400},
+    {Mode{"random", one_case, false, 600000, 17000000, 0, 0, 260, 400},
+     Mode{"wide-dictionary", wide_case, false, 100000, 3000000, 0, 0, 260, 400},
      Mode{"pdo-mapping-verdicts", vf::c14_case, false, 150000, 3000000, 0, 0, 300, 600}},
     {"the mapping abort codes 0604 0041h/0042h need PDO objects: they are judged by a second mode that runs C14's case generator and rule model (histories of SDO writes to 14xx/16xx/18xx/1Axx) under this property as well",
      "length codes 0607 0012h/0013h are demanded where the length is announced in the initiate; a block download announcing less than a fixed-size object's width may be refused at once or at the end",
